@@ -587,11 +587,11 @@ func run(c *Ctx) {
 		for _, d := range []int64{8998, 8999, 9000, 9001, 4500, 1} {
 			cases = append(cases, shortCase(c, d))
 		}
-		n := c.Budget(300, 3000)
+		n := c.Budget(300, 6000)
 		for i := 0; i < n; i++ {
 			cases = append(cases, genCase(c))
 		}
-		nw := c.Budget(8, 30)
+		nw := c.Budget(8, 50)
 		for i := 0; i < nw; i++ {
 			cases = append(cases, genWireCase(c))
 		}
